@@ -55,3 +55,32 @@ Definition host_recover_compressed (msg sig65 : list byte) : option (list byte) 
   | RKey k => Some k
   | _ => None
   end.
+
+(* ---- the recovery host functions, version by version.
+   gossamer: version 2 calls version 1; both go through RecoverPublicKey(Compressed), which
+   subtracts 27 from sig[64] in the caller's slice -- here a view of guest memory -- when it is
+   at least 27: [host_recover_mutates] is that side effect (observed by the harness, not part of
+   the property). *)
+Definition host_recover_mutates (sig65 : list byte) : bool := (27 <=? b2n (nth 64 sig65 Byte.x00))%N.
+
+(* Substrate, version 2 (secp256k1 crate = libsecp256k1): recovery id sig[64], minus 27 when above
+   26, must be 0..3; RecoverableSignature::from_compact rejects r or s >= n; recover *)
+Definition substrate_recover_v2 (msg sig65 : list byte) : option (Z * Z) := ecrecover msg sig65.
+
+(* Substrate, version 1 (the pure-Rust libsecp256k1 crate): Signature::parse_overflowing_slice
+   reduces r and s modulo n instead of rejecting them; the rest is the same *)
+Definition substrate_recover_v1 (msg sig65 : list byte) : option (Z * Z) :=
+  if negb (length msg =? 32)%nat then None else
+  if negb (length sig65 =? 65)%nat then None else
+  let v0 := b2n (nth 64 sig65 Byte.x00) in
+  let v := if (27 <=? v0)%N then (v0 - 27)%N else v0 in
+  if (4 <=? v)%N then None else
+  ecdsa_recover_point msg (be_z (firstn 32 sig65) mod secp_n)
+                      (be_z (firstn 32 (skipn 32 sig65)) mod secp_n) v.
+
+(* the inputs on which version 1 of Substrate can differ from gossamer's (known finding
+   ecdsa-recover-v1-strict): r or s is not below the group order *)
+Definition host_recover_v1_guard (sig65 : list byte) : bool :=
+  (secp_n <=? be_z (firstn 32 sig65)) || (secp_n <=? be_z (firstn 32 (skipn 32 sig65))).
+
+Definition key_xy (q : Z * Z) : list byte := z_be32 (fst q) ++ z_be32 (snd q).
